@@ -118,6 +118,13 @@ func tree(c *rp.Ctx, i int, cs *amf0x.Case) rp.Result {
 	return rp.Result{OK: false, Deviation: keyedDeviation, What: what, Nontriv: true}
 }
 
+// readsKeyed probes whether the library reads strict arrays in the StrictKeyed layout (the vector
+// is the one the library's unit tests pin: count 1, name "e", null).
+func readsKeyed() bool {
+	d := amf0x.Decode([]byte{10, 0, 0, 0, 1, 0, 1, 'e', 5})
+	return d.OK && d.Size == 9
+}
+
 // classOf is the library's marker table entry, in the words of the specification's Discover.
 func classOf(p []byte) string {
 	a, err := amf0.Discovery(p)
@@ -166,6 +173,11 @@ func markerCase(c *rp.Ctx, i int, cs *amf0x.Case) rp.Result {
 	// the marker in every position a value can have
 	dev := ""
 	for _, it := range cs.Items {
+		if it.W == "keyed" && !readsKeyed() {
+			// (name, value) pairs in a strict array are not an encoding of the specification: only a
+			// library that reads them owes an error for an unsupported marker among them
+			continue
+		}
 		b := amf0x.MustLD(it.Enc, 0)
 		d := amf0x.Decode(b)
 		what := ""
